@@ -954,6 +954,43 @@ func genC08H264(x *Ctx) {
 			}
 		}
 	}
+	// (a2) held-back parameter sets whose STAP-A size 1+2+len(SPS)+2+len(PPS) lies around 2^16 (a sum that
+	//      no longer fits the 16 bits of an MTU or of a STAP-A length field), in one buffer and over three
+	//      calls, at an ordinary MTU and at the largest ones  (seed C08-r8-1)
+	for _, mtu := range []int{1200, 65534, 65535} {
+		for _, tot := range []int{65525, 65530, 65531, 65535, 65536, 65537, 65541, 65600} {
+			for variant := 0; variant < 3; variant++ {
+				mtu, tot, variant := mtu, tot, variant
+				if x.Tier != "thorough" && variant == 2 && mtu != 65535 {
+					continue
+				}
+				x.Case(func(c *Case) {
+					c.Tag("stapa-size-around-2^16")
+					small := c.R.Range(2, 40)
+					var sps, pps []byte
+					if variant == 1 {
+						sps, pps = h264Nal(c.R, 7, small), h264Nal(c.R, 8, tot-5-small)
+					} else {
+						sps, pps = h264Nal(c.R, 7, tot-5-small), h264Nal(c.R, 8, small)
+					}
+					idr := h264Nal(c.R, 5, c.R.Range(2, 50))
+					cat := func(ns ...[]byte) []byte {
+						var b []byte
+						for _, n := range ns {
+							b = append(b, 0, 0, 1)
+							b = append(b, n...)
+						}
+						return b
+					}
+					if variant == 2 {
+						run(c, false, []PayCall{{uint16(mtu), cat(sps)}, {uint16(mtu), cat(pps)}, {uint16(mtu), cat(idr)}})
+					} else {
+						run(c, false, []PayCall{{uint16(mtu), cat(sps, pps, idr)}})
+					}
+				})
+			}
+		}
+	}
 	// (b) random histories
 	for i, n := 0, x.N(20000, 400000); i < n; i++ {
 		x.Case(func(c *Case) {
